@@ -5,6 +5,7 @@ import itertools as it
 from montepy.errors import *
 from montepy.constants import (
     BLANK_SPACE_CONTINUE,
+    TABSIZE,
     get_max_line_length,
     rel_tol,
     abs_tol,
@@ -250,10 +251,14 @@ class MCNP_Object(ABC):
         :returns: the wrapped lines
         :rtype: list
         """
+        # MCNP (and textwrap) read a tab as the blanks up to the next multiple of 8 columns
+        line = line.expandtabs(TABSIZE)
         if len(wrapper.initial_indent) + len(line) <= wrapper.width:
             return wrapper.wrap(line)
         comment_wrapper = copy.copy(wrapper)
-        if is_comment(line):
+        written = wrapper.initial_indent + line
+        # a "c" after five or more blanks is data on a continuation line, not a comment
+        if is_comment(written) and written[:BLANK_SPACE_CONTINUE].strip():
             comment_wrapper.subsequent_indent = "c "
             return comment_wrapper.wrap(line)
         if "$" not in line:
@@ -273,6 +278,9 @@ class MCNP_Object(ABC):
         else:
             ret = []
             comment_wrapper.initial_indent = wrapper.initial_indent + data
+            if len(comment_wrapper.initial_indent) >= wrapper.width // 2:
+                # only blanks before the comment: it may start anywhere on a continuation line
+                comment_wrapper.initial_indent = wrapper.subsequent_indent
         comment_wrapper.subsequent_indent = wrapper.subsequent_indent + "$ "
         return ret + comment_wrapper.wrap(comment)
 
